@@ -26,6 +26,7 @@ import (
 	"github.com/cosmos/cosmos-sdk/client"
 	clienttx "github.com/cosmos/cosmos-sdk/client/tx"
 	codectypes "github.com/cosmos/cosmos-sdk/codec/types"
+	authtx "github.com/cosmos/cosmos-sdk/x/auth/tx"
 	"github.com/cosmos/cosmos-sdk/crypto/keys/ed25519"
 	"github.com/cosmos/cosmos-sdk/store"
 	pruningtypes "github.com/cosmos/cosmos-sdk/store/pruning/types"
@@ -684,6 +685,74 @@ func (r *Replica) signEth(ctx sdk.Context, signer int, to common.Address, value 
 	return r.TxCfg.TxEncoder()(tx)
 }
 
+// signEthBatch: one Cosmos transaction on the Ethereum route carrying 2-3 MsgEthereumTx (plain transfers by consecutive
+// users, legacy pricing).  t.N, read in base 4, says per message how it is signed: 0 properly, 1 without replay
+// protection (Homestead signer: refused unless the chain allows unprotected transactions), 2 with the signature value
+// R zeroed, 3 for another chain id.  With two messages invalid in different ways the transaction's result must name
+// the FIRST invalid one, on every node.
+func (r *Replica) signEthBatch(ctx sdk.Context, signer int, t bhTx) ([]byte, error) {
+	chain := r.App.EvmKeeper.ChainID()
+	n := 2 + int(t.V%2)
+	code := t.N
+	var msgs []sdk.Msg
+	fee, gasSum := new(big.Int), uint64(0)
+	for i := 0; i < n; i++ {
+		u := (signer + i) % bhNU
+		how := code % 4
+		code /= 4
+		to := actorAddr(((t.T + i) % bhNU + bhNU) % bhNU)
+		args := &evmtypes.EvmTxArgs{ChainID: chain, Nonce: r.App.EvmKeeper.GetNonce(ctx, bhUserEth[u]), To: &to, Amount: bigA(t.A), GasLimit: 100_000}
+		r.ethPrices(ctx, args, false)
+		var es ethtypes.Signer = ethtypes.LatestSignerForChainID(chain)
+		switch how {
+		case 1:
+			args.ChainID = nil
+			es = ethtypes.HomesteadSigner{}
+		case 3:
+			other := new(big.Int).Add(chain, big.NewInt(1))
+			args.ChainID = other
+			es = ethtypes.LatestSignerForChainID(other)
+		}
+		msg := evmtypes.NewTx(args)
+		msg.From = bhUserEth[u].Hex()
+		if err := msg.Sign(es, testtx.NewSigner(bhUserKey[u])); err != nil {
+			return nil, err
+		}
+		msg.From = ""
+		if how == 2 {
+			td, err := evmtypes.UnpackTxData(msg.Data)
+			if err != nil {
+				return nil, err
+			}
+			if l, ok := td.(*evmtypes.LegacyTx); ok {
+				l.R = []byte{}
+				any, err := evmtypes.PackTxData(l)
+				if err != nil {
+					return nil, err
+				}
+				msg.Data = any
+				msg.Hash = msg.AsTransaction().Hash().Hex()
+			}
+		}
+		msgs = append(msgs, msg)
+		fee.Add(fee, new(big.Int).Mul(args.GasPrice, new(big.Int).SetUint64(args.GasLimit)))
+		gasSum += args.GasLimit
+	}
+	b := r.TxCfg.NewTxBuilder()
+	eb, ok := b.(authtx.ExtensionOptionsTxBuilder)
+	opt, err := codectypes.NewAnyWithValue(&evmtypes.ExtensionOptionsEthereumTx{})
+	if !ok || err != nil {
+		return nil, fmt.Errorf("no extension options builder")
+	}
+	eb.SetExtensionOptions(opt)
+	if err := b.SetMsgs(msgs...); err != nil {
+		return nil, err
+	}
+	b.SetFeeAmount(sdk.NewCoins(sdk.NewCoin(utils.BaseDenom, sdkmath.NewIntFromBigInt(fee))))
+	b.SetGasLimit(gasSum)
+	return r.TxCfg.TxEncoder()(b.GetTx())
+}
+
 func bigA(s string) *big.Int {
 	if s == "" {
 		return big.NewInt(0)
@@ -972,6 +1041,8 @@ func (r *Replica) buildTx(ctx sdk.Context, t bhTx) ([]byte, error) {
 			return nil, err
 		}
 		return r.signEth(ctx, f, to, bigA(t.A), data, 3_000_000, t.N%2 == 1)
+	case "ethbatch":
+		return r.signEthBatch(ctx, f, t)
 	case "probedeploy":
 		return r.signProbeDeploy(ctx, f, t.N%2 == 1)
 	case "probe":
